@@ -1181,6 +1181,20 @@ impl<'a> Run<'a> {
                 self.tb.add_script_reference_input(&inp, size);
                 self.sized_refs.push(inp.clone());
                 self.ops.push(format!("script_reference_input(p{},{})", idx, size));
+                // now and then the same UTxO is spent as well, through an adder that has no parameter for the script size
+                // (it was declared above): its script still has its price, whether or not the builder then drops the
+                // outpoint from the reference inputs (deduplicate_explicit_ref_inputs_with_regular_inputs)
+                if self.ops.len() % 3 == 0 {
+                    if let Some(u) = self.w.utxos.values().find(|u| u.input == inp).cloned() {
+                        let amt = u.output.amount();
+                        if self.call("ib.add_regular_input(sized reference input)", |s| s.ib.add_regular_input(&u.output.address(), &u.input, &amt)).is_some() {
+                            self.track_input(&u);
+                            let ib = self.ib.clone();
+                            self.tb.set_inputs(&ib);
+                            self.ops.push("key_input(the sized reference input is spent too)".into());
+                        }
+                    }
+                }
             }
             3 => {
                 let d = self.t.choose(4) + if self.focus.alt_datums && self.ops.len() % 2 == 1 { 4 } else { 0 };
